@@ -38,6 +38,20 @@ def stepRecords (toks : List String) : String :=
     match find name, ofHex b with
     | some rc, some b => recDec (lookupKey tbl) rc b
     | _, _ => "bad-op"
+  | ["redec", name, _a, b, _keys] =>     -- decoding into a used receiver = decoding into a fresh one: the model has no receiver
+    match find name, ofHex b with
+    | some rc, some b => (match rc.ty.dec (lookupKey tbl) b with | .ok _ => "ok" | .error .panic => "panic" | .error _ => "err")
+    | _, _ => "bad-op"
+  | ["rawitem", "StorageItem", n, seed, _keys] =>
+    match n.toNat?, seed.toNat? with
+    | some n, some sd =>
+      let v : Bytes := (List.range n).map fun i => UInt8.ofNat ((sd + i) % 251)
+      let raw := storageItem.enc ((0 : UInt8), v)
+      let back : Bool := match storageItem.dec (lookupKey tbl) raw with
+        | .ok (x, []) => (let v' : Bytes := x.2; v' == v)
+        | _ => false
+      (if back then "ok" else "FAIL") ++ " rawlen=" ++ toString raw.length ++ " head=" ++ Hex.showHex (raw.take 6)
+    | _, _ => "bad-op"
   | ["holdenc", name, b1, b2, b3, _keys] =>   -- held-encoding comparison: evaluated on the implementation (the model is pure)
     match find name, ofHex b1, ofHex b2, ofHex b3 with
     | some rc, some b1, some b2, some b3 =>
